@@ -2121,7 +2121,10 @@ class _GroupElem(ABC):
         else:
             coordInElem_n = None
 
-        for e in elements_e:
+        # the candidates are visited in increasing order, whatever order they were listed in: the
+        # element kept for a point shared by several ones is the one that wrote its reference
+        # coordinates last
+        for e in np.unique(elements_e):
             # get element's node coordinates (x, y, z)
             coordElem = coord[connect[e]]
 
